@@ -29,7 +29,9 @@ func init() {
 			"(convreset) in the resync function, on every path (from the entry and around the retry loop) the UpdateProcessor is reset with OnSyncerStarting between the conversion of one list's items and the conversion of the next list's items " +
 			"(a re-List carries no deletions, so a stateful converter must drop its private cache first); paths on which UpdateProcessor is nil are exempt.  " +
 			"(agg) the syncer announces InSync only from the aggregation whose InSync edge is guarded by `numSynced == len(cacheStatuses)` with numSynced incremented only for entries equal to InSync; other callers pass a " +
-			"constant that is not InSync; buffered updates are flushed before a status is announced; per-cache statuses start as a non-InSync constant.",
+			"constant that is not InSync; buffered updates are flushed before a status is announced; per-cache statuses start as a non-InSync constant.  " +
+			"(record) wherever the syncer receives an api.SyncStatus from a cache (type assertion on the result value), on every path to the return the value is stored into cacheStatuses (directly or by an in-package callee that stores it on all its paths) " +
+			"under the cache id of the same result, before any other entry of the table is read; the store may only be skipped on an edge where the value equals the cache's own current entry — in particular not by a test on the published aggregate status.",
 		NotDecided: "Convergence of the emitted stream to the datastore contents; correctness of revision comparison; that updates emitted from the watch loop (loopReadingFromWatcher) never occur in WaitForDatastore " +
 			"(this needs the non-local fact that a watch only exists after a successful resync; only the resync function and its callees are decided); behaviour of UpdateProcessor conversions (only that the reset notification is delivered, not what an implementation does with it); that oldResources is nil after the sweep.",
 		Assumptions: []string{
@@ -70,6 +72,12 @@ func init() {
 				Old: "\t\t\tcase api.InSync:\n\t\t\t\tnumSynced++\n", New: "\t\t\tcase api.InSync, api.ResyncInProgress:\n\t\t\t\tnumSynced++\n", Expect: "C26.agg/insync-when-all-synced"},
 			{Name: "status announced before buffered updates are flushed", File: c26SyncFile,
 				Old: "\t\t\tupdates = ws.sendUpdates(updates)\n\t\t\tws.sendStatusUpdate(newStatus)\n", New: "\t\t\tws.sendStatusUpdate(newStatus)\n", Expect: "C26.agg/flush-before-status"},
+			{Name: "status not recorded when it equals the published aggregate", File: c26SyncFile,
+				Old: "\t\tws.cacheStatuses[r.cacheID] = v\n", New: "\t\tif v == ws.status {\n\t\t\treturn updates\n\t\t}\n\t\tws.cacheStatuses[r.cacheID] = v\n", Expect: "C26.record/"},
+			{Name: "only progress is recorded, a cache falling back to resync keeps its old entry", File: c26SyncFile,
+				Old: "\t\tws.cacheStatuses[r.cacheID] = v\n", New: "\t\tif v > ws.cacheStatuses[r.cacheID] {\n\t\t\tws.cacheStatuses[r.cacheID] = v\n\t\t}\n", Expect: "C26.record/"},
+			{Name: "aggregate computed before the received status is recorded", File: c26SyncFile,
+				Old: "\t\tws.cacheStatuses[r.cacheID] = v\n\n\t\tvar numWaiting, numSynced int\n", New: "\t\tdefer func() { ws.cacheStatuses[r.cacheID] = v }()\n\n\t\tvar numWaiting, numSynced int\n", Expect: "C26.record/"},
 			{Name: "caches start as in-sync", File: c26SyncFile,
 				Old: "rs.cacheStatuses = append(rs.cacheStatuses, api.WaitForDatastore)", New: "rs.cacheStatuses = append(rs.cacheStatuses, api.InSync)", Expect: "C26.agg/initial-status"},
 		},
@@ -96,12 +104,14 @@ func runC26(c *Ctx) {
 	c.Rule("C26.nowait", "E-GUARD/E-ORDER", "in the resync function no update can be emitted before the cache has left WaitForDatastore", 3)
 	c.Rule("C26.convreset", "E-PATH (3-state forward dataflow)", "listed items are converted only by a converter that was reset (OnSyncerStarting) since the previous list's items were converted, on every path of the resync function", 1)
 	c.Rule("C26.agg", "E-GUARD/E-FLOW/E-ORDER", "syncer InSync only when all caches are InSync; updates flushed before a status; caches start not in sync", 4)
+	c.Rule("C26.record", "E-PATH/E-ORDER", "every api.SyncStatus received from a watcher cache is stored into cacheStatuses (under the id that came with it) on every path to the return, before the table is read; only 'equals the cache's own entry' may skip the store", 1)
 	m.resolve()
 	m.insyncRules()
 	m.sweepRules()
 	m.nowaitRules()
 	m.aggRules()
 	m.convResetRules()
+	m.recordRules()
 }
 
 func (m *c26Model) fld(name string) *types.Var {
